@@ -531,3 +531,43 @@ def run(ctx):
     from ..families import check_error_swallow as _swallow
     ctx.rule('C07.2-errors-surface', 'in the functions of this property that can themselves report failure, the Result of one of the repository\'s own fallible functions is never turned into "nothing" or a default (ok(), unwrap_or*, map_or*): an error must surface as an error, not as a value the callee never produced; a rule about what must not be there (exercised on the fixture every run)', floor=0)
     _swallow(ctx, P, 'C07.2-errors-surface', ('edp_client::connection::Connection::send', 'edp_client::connection::Connection::link', 'edp_client::connection::Connection::unlink', 'edp_client::connection::Connection::monitor', 'edp_client::connection::Connection::demonitor', 'erltf::encoder::'))
+
+    # an operation on a remote target succeeds only by sending its frame
+    ctx.rule('C07.1-remote-success-means-sent', 'in Node::link / unlink / monitor / demonitor, on the branch for a target on another node, every Ok result is dominated by the call of the matching Connection operation: '
+             'no local bookkeeping state (was there a link? is there a monitor?) decides whether the frame is written', floor=4)
+    for op in ('link', 'unlink', 'monitor', 'demonitor'):
+        NB = ctx.body('edp_node::node::Node::%s::{closure#0}' % op)
+        if NB is None:
+            continue
+        sends = [bb for bb, t in NB.calls() if any(n == 'edp_client::connection::Connection::%s' % op for n in callee_names(t))]
+        remote = None
+        for sw in sorted(NB.live_blocks()):
+            e = NB.switch_bool_edges(sw)
+            if e and e[0][0] == 'call' and (callee_of(e[0][2])[0] or '').rsplit('::', 1)[-1] in ('eq', 'ne') and 'name' in str([canon(NB, a) for a in e[0][2]['args']]) and 'node' in str([canon(NB, a) for a in e[0][2]['args']]):
+                last = (callee_of(e[0][2])[0] or '').rsplit('::', 1)[-1]
+                remote = e[2] if last == 'eq' else e[1]
+                break
+        if not ctx.anchor(remote is not None and bool(sends), 'Node::%s: local/remote test and Connection::%s call' % (op, op)):
+            continue
+        reg = NB.reachable(remote)
+        oks = [(bb, st) for bb, j, st in NB.stmts() if bb in reg and st['k'] == '=' and st['rv']['k'] == 'agg' and st['rv'].get('adt') == 'core::result::Result' and st['rv'].get('var') == 'Ok'
+               and (st['pl']['l'] == 0 or 0 in NB.derived_locals([st['pl']['l']]))]
+        # Ok sites that also belong to the local branch (a shared tail) are not the remote branch's own
+        local_side = NB.reachable([x for x in NB.succ(sw) if x != remote][0]) if [x for x in NB.succ(sw) if x != remote] else set()
+        oks = [(bb, st) for bb, st in oks if bb not in local_side]
+        if not oks:
+            ctx.undecided('C07.1-remote-success-means-sent', op, 'no Ok(..) construction found on the remote branch')
+            continue
+        for bb, st in oks:
+            if any(NB.block_dominates(sb_, bb) for sb_ in sends):
+                ctx.ok('C07.1-remote-success-means-sent', '%s:Ok' % op, 'dominated by Connection::%s' % op, ctx.where(NB, ln=st['ln']))
+            else:
+                ctx.bad('C07.1-remote-success-means-sent', '%s:Ok' % op, 'Node::%s reports success for a remote target on a path that never calls Connection::%s: the operation writes no frame' % (op, op),
+                        ctx.where(NB, ln=st['ln']), key='DOM:edp_node::node::Node::%s:ok-without-send' % op)
+
+    # arguments in node-local form go out as they came in, in both framing modes: the replay rules of C10 re-run
+    ctx.rule('C07.2-node-local-arguments', 'pids, ports and references that arrived in node-local form are written back as LOCAL_EXT + their raw bytes by the encoder used for control tuples and payloads, '
+             'with or without an atom-cache table (rules C10.2-replay and C10.2-single-writer re-run)', floor=3)
+    from ..order import SubCtx as _Sub7
+    from . import c10 as _c10
+    _c10.run(_Sub7(ctx, 'C07.2-node-local-arguments', 'c10', allow=('C10.2-replay', 'C10.2-single-writer')))
